@@ -82,22 +82,58 @@ def has_diamond(ir):
 _generic0 = generic
 
 
-def cfg_read_as_call_arg(ir):
-    """a configuration field is passed (by reference) as a numeric call argument"""
+def cfg_numeric_arg_fields(ir):
+    """configuration fields passed (by reference) as a *numeric* call argument -- the case
+    stmts_effs deliberately skips; control-typed fields (index/size/bool/stride) passed as
+    arguments are ordinary reads and are not part of that mechanism"""
+    out = set()
     for _, s in irutil.all_stmts(ir):
         if isinstance(s, LoopIR.Call):
             for fa, a in zip(s.f.args, s.args):
                 if fa.type.is_numeric() and isinstance(a, LoopIR.ReadConfig):
-                    return True
-    return False
+                    out.add(f"{a.config.name()}.{a.field}")
+    return sorted(out)
+
+
+def cfg_read_as_call_arg(ir):
+    return bool(cfg_numeric_arg_fields(ir))
+
+
+def cfg_fields_written(ir):
+    out = set()
+    for _, s in irutil.all_stmts(ir):
+        if isinstance(s, LoopIR.WriteConfig):
+            out.add(f"{s.config.name()}.{s.field}")
+    return out
+
+
+def cfg_op_field(op, call):
+    """the configuration field a config primitive writes / deletes / binds"""
+    try:
+        if op == "delete_config":
+            n = call.kwargs.get("stmt_cursor")._impl._node
+            return f"{n.config.name()}.{n.field}"
+        if op in ("write_config", "bind_config"):
+            return f"{call.kwargs.get('config').name()}.{call.kwargs.get('field')}"
+    except Exception:
+        return None
+    return None
 
 
 def generic(op, old_ir, new_ir, call):  # noqa: F811
     d = _generic0(op, old_ir, new_ir, call) or {}
     if has_diamond(old_ir):
         d["shared_stmt_objects"] = True
-    if cfg_read_as_call_arg(old_ir):
-        d["cfg_read_as_call_arg"] = True
+    nf = cfg_numeric_arg_fields(old_ir) or cfg_numeric_arg_fields(new_ir)
+    if nf:
+        # the mechanism "a numeric config argument is not a read" can only explain a difference
+        # when the operation concerns a write of one of *those* fields
+        if op in ("delete_config", "write_config", "bind_config"):
+            f = cfg_op_field(op, call) if call is not None else None
+            if f in nf:
+                d["cfg_read_as_call_arg"] = True
+        elif set(nf) & (cfg_fields_written(old_ir) | cfg_fields_written(new_ir)):
+            d["cfg_read_as_call_arg"] = True
     if iter_in_alloc_extent(old_ir):
         d["iter_in_alloc_extent"] = True
     return d
